@@ -174,6 +174,11 @@ func iterateContainerBuckets(l *zap.Logger, cs Containers, tx *bbolt.Tx, fromBkt
 			l.Info("container no longer exists, ignoring", zap.Stringer("container", cnr))
 			continue
 		}
+		if !bytes.Equal(name, fromBkt) {
+			// resume key belongs to the bucket it was produced for only: that
+			// bucket could be skipped (container removed) or deleted meanwhile
+			afterObj = nil
+		}
 		b := tx.Bucket(name) // must not be nil, bbolt/Tx.ForEach follows the same assumption
 		if done, afterObj, err = migrationFunc(l, tx, b, cnr, afterObj, rem); err != nil {
 			return nil, nil, fmt.Errorf("process container 0x%X%s bucket: %w", name[0], cnr, err)
